@@ -16,6 +16,7 @@ mod circ;
 mod front;
 mod lang;
 mod lit;
+mod tast;
 mod types;
 mod util;
 
@@ -38,6 +39,7 @@ fn handle(case: &Value) -> Value {
         "literal_check" => lit::literal_check(case),
         "compile_repeat" => lang::compile_repeat(case),
         "frontend" => front::frontend(case),
+        "typed_ast" => tast::typed_ast(case),
         "parse_arg" => front::parse_arg(case),
         "scan" => front::scan(case),
         "render" => front::render(case),
